@@ -291,6 +291,25 @@ def check_driver_c09(ctx, drv, gen, sel, inner):
                 continue
             written = any(loop in s.loops for s in a.stores)
             ctx.check(written, "C09.d OUT-WRITTEN", f"output#{k}", drv.loc(a.node), "a zero-allocated table that is returned (and published in `scores`) is written inside the per-interval loop", found=f"{len(a.stores)} stores", expected=">= 1 store per scored interval")
+    # the per-interval tables keep their INITIAL value for an interval without inner candidates (skipped): that value must
+    # be 0, never above a threshold >= 0 - a table created by np.ones / np.full(.., c) would make skipped intervals win
+    if isinstance(rv, TupleV):
+        for k, o in enumerate(rv.items):
+            a = arr_of(o) if isinstance(o, Num) else None
+            if a is None or not any(loop in s_.loops for s_ in a.stores):
+                continue
+            z = a.init[0] == "zeros" or (a.init[0] == "fill" and isinstance(a.init[1], NF) and a.init[1].is_zero())
+            ctx.check(z, "C09.d OUT-WRITTEN", f"output#{k}|initial", drv.loc(a.node), "a per-interval table starts at 0: an interval that is skipped (no admissible inner interval) reports score 0", found=f"initialised by {a.init[0]}" + (f"({a.init[1]!r})" if len(a.init) > 1 and isinstance(a.init[1], NF) else ""), expected="zeros")
+    # the driver returns (selected anomalies, scores, maximisers, interval starts, interval ends) - the order _predict unpacks
+    if isinstance(rv, TupleV) and all(r in found_roles for r in want):
+        okr = len(rv.items) == 5
+        if okr:
+            okr = isinstance(rv.items[0], ListV) and getattr(rv.items[0], "role", None) == "selected"
+            okr = okr and isinstance(rv.items[1], Num) and arr_of(rv.items[1]) is found_roles["score"][0].data["arr"]
+            a2 = arr_of(rv.items[2]) if isinstance(rv.items[2], Num) else None
+            okr = okr and a2 is not None and a2.shape is not None and len(a2.shape) == 2
+            okr = okr and isinstance(rv.items[3], Num) and nf_equal(rv.items[3].nf, app("ivl_starts")) and isinstance(rv.items[4], Num) and nf_equal(rv.items[4].nf, app("ivl_ends"))
+        ctx.check(okr, "C09.f WIRING", "driver-result-order", drv.loc(), "the driver returns (anomalies, scores, maximisers, interval starts, interval ends) in that order", found=[valkey(x)[:30] for x in rv.items])
     # selector gets (scores, inner starts, inner ends, starts, ends, threshold)
     sc = [x for x in p.events if x.kind == "selector_call"]
     if sc and all(r in found_roles for r in want):
